@@ -84,6 +84,9 @@ func (c *CCache) Unmarshal(b []byte) (err error) {
 	if len(b) < 2 {
 		return errors.New("Invalid credential cache data. Less than 2 bytes")
 	}
+	// Slice expressions are bounded by the capacity, not the length: without this the readers would go on behind the
+	// end of the data into whatever else the caller's buffer holds.
+	b = b[:len(b):len(b)]
 	p := 0
 	//The first byte of the file always has the value 5
 	if int8(b[p]) != 5 {
